@@ -240,7 +240,129 @@ class Assert2Raise(ast.NodeTransformer):
         return ast.copy_location(ast.If(test=ast.UnaryOp(op=ast.Not(), operand=node.test), body=[ast.Raise(exc=exc, cause=None)], orelse=[]), node)
 
 
-TRANSFORMS = {'unparse': None, 'rename': Rename, 'augassign': AugAssign, 'swapcmp': SwapCmp, 'invertif': InvertIf, 'kwsort': KwSort, 'retvar': RetVar, 'ternary2if': Ternary2If, 'comp2loop': Comp2Loop, 'extractarg': ExtractArg, 'enum2range': Enum2Range, 'assert2raise': Assert2Raise}
+class InvertIfExp(ast.NodeTransformer):
+    """a if c else b  ->  b if not c else a"""
+    def visit_IfExp(self, node):
+        self.generic_visit(node)
+        test = node.test.operand if (isinstance(node.test, ast.UnaryOp) and isinstance(node.test.op, ast.Not)) else ast.UnaryOp(op=ast.Not(), operand=node.test)
+        return ast.copy_location(ast.IfExp(test=test, body=node.orelse, orelse=node.body), node)
+
+
+class DeMorgan(ast.NodeTransformer):
+    """not a and not b -> not (a or b);  not a or not b -> not (a and b)"""
+    def visit_BoolOp(self, node):
+        self.generic_visit(node)
+        if len(node.values) >= 2 and all(isinstance(v, ast.UnaryOp) and isinstance(v.op, ast.Not) for v in node.values):
+            other = ast.Or() if isinstance(node.op, ast.And) else ast.And()
+            return ast.copy_location(ast.UnaryOp(op=ast.Not(), operand=ast.BoolOp(op=other, values=[v.operand for v in node.values])), node)
+        return node
+
+
+class LenZero(ast.NodeTransformer):
+    """len(x) == 0 -> not len(x);  x.size == 0 -> not x.size;  len(x) > 0 / x.size > 0 -> the bare truth value (inside if / while tests and boolean operators only)"""
+    @staticmethod
+    def _sized(n):
+        return (isinstance(n, ast.Call) and isinstance(n.func, ast.Name) and n.func.id == 'len' and len(n.args) == 1) or (isinstance(n, ast.Attribute) and n.attr == 'size')
+
+    def _conv(self, t):
+        if isinstance(t, ast.BoolOp):
+            t.values = [self._conv(v) for v in t.values]
+            return t
+        if isinstance(t, ast.UnaryOp) and isinstance(t.op, ast.Not):
+            t.operand = self._conv(t.operand)
+            return t
+        if isinstance(t, ast.Compare) and len(t.ops) == 1 and self._sized(t.left) and isinstance(t.comparators[0], ast.Constant) and t.comparators[0].value == 0:
+            if isinstance(t.ops[0], ast.Eq):
+                return ast.copy_location(ast.UnaryOp(op=ast.Not(), operand=t.left), t)
+            if isinstance(t.ops[0], (ast.Gt, ast.NotEq)):
+                return t.left
+        return t
+
+    def visit_If(self, node):
+        self.generic_visit(node)
+        node.test = self._conv(node.test)
+        return node
+
+    def visit_While(self, node):
+        self.generic_visit(node)
+        node.test = self._conv(node.test)
+        return node
+
+
+class ListComp2List(ast.NodeTransformer):
+    """[x for x in xs] -> list(xs)"""
+    def visit_ListComp(self, node):
+        self.generic_visit(node)
+        g = node.generators
+        if len(g) == 1 and not g[0].ifs and not g[0].is_async and isinstance(g[0].target, ast.Name) and isinstance(node.elt, ast.Name) and node.elt.id == g[0].target.id:
+            return ast.copy_location(ast.Call(func=ast.Name(id='list', ctx=ast.Load()), args=[g[0].iter], keywords=[]), node)
+        return node
+
+
+class RenamePrivateParams(ast.NodeTransformer):
+    """parameters of private module-level functions (name starts with one underscore, no decorator, no **kwargs use by name) get a `_p` suffix; their call
+    sites inside the module pass them positionally or are rewritten to the new keyword"""
+    def visit_Module(self, node):
+        ren = {}
+        for st in node.body:
+            if isinstance(st, ast.FunctionDef) and st.name.startswith('_') and not st.name.startswith('__') and not st.decorator_list and not st.args.kwarg \
+                    and not st.args.kwonlyargs:
+                names = [a.arg for a in st.args.args]
+                inner = set(n.id for n in ast.walk(st) if isinstance(n, ast.Name)) | set(a.arg for f in ast.walk(st) if isinstance(f, (ast.FunctionDef, ast.Lambda)) and f is not st
+                                                                                           for a in f.args.args)
+                m = dict((n, n + '_p') for n in names if n + '_p' not in inner and n not in ('self', 'cls'))
+                # nested functions / lambdas that re-bind a parameter name: leave the whole function alone
+                rebinding = any(isinstance(f, (ast.FunctionDef, ast.Lambda)) and f is not st and any(a.arg in m for a in f.args.args) for f in ast.walk(st))
+                if m and not rebinding:
+                    ren[st.name] = m
+        for st in node.body:
+            if isinstance(st, ast.FunctionDef) and st.name in ren:
+                m = ren[st.name]
+                for a in st.args.args:
+                    a.arg = m.get(a.arg, a.arg)
+                for n in ast.walk(st):
+                    if isinstance(n, ast.Name) and n.id in m:
+                        n.id = m[n.id]
+        for n in ast.walk(node):
+            if isinstance(n, ast.Call) and isinstance(n.func, ast.Name) and n.func.id in ren:
+                for k in n.keywords:
+                    if k.arg in ren[n.func.id]:
+                        k.arg = ren[n.func.id][k.arg]
+        return node
+
+
+class Unpack2Index(ast.NodeTransformer):
+    """a, b = f(...)  ->  _t = f(...); a = _t[0]; b = _t[1]   (call right-hand sides, plain name targets)"""
+    def __init__(self):
+        self.n = 0
+
+    def _stmts(self, body):
+        out = []
+        for st in body:
+            if isinstance(st, ast.Assign) and len(st.targets) == 1 and isinstance(st.targets[0], ast.Tuple) and isinstance(st.value, ast.Call) \
+                    and all(isinstance(e, ast.Name) for e in st.targets[0].elts):
+                self.n += 1
+                t = '_unp%d' % self.n
+                out.append(ast.copy_location(ast.Assign(targets=[ast.Name(id=t, ctx=ast.Store())], value=st.value), st))
+                for i, e in enumerate(st.targets[0].elts):
+                    out.append(ast.copy_location(ast.Assign(targets=[ast.Name(id=e.id, ctx=ast.Store())],
+                                                            value=ast.Subscript(value=ast.Name(id=t, ctx=ast.Load()), slice=ast.Constant(value=i), ctx=ast.Load())), st))
+            else:
+                out.append(st)
+        return out
+
+    def generic_visit(self, node):
+        super().generic_visit(node)
+        for f in ('body', 'orelse', 'finalbody'):
+            b = getattr(node, f, None)
+            if isinstance(b, list) and b and isinstance(b[0], ast.stmt):
+                setattr(node, f, self._stmts(b))
+        return node
+
+
+TRANSFORMS = {'unparse': None, 'rename': Rename, 'augassign': AugAssign, 'swapcmp': SwapCmp, 'invertif': InvertIf, 'kwsort': KwSort, 'retvar': RetVar, 'ternary2if': Ternary2If, 'comp2loop': Comp2Loop, 'extractarg': ExtractArg, 'enum2range': Enum2Range, 'assert2raise': Assert2Raise,
+              'invertifexp': InvertIfExp, 'demorgan': DeMorgan, 'lenzero': LenZero, 'listcomp2list': ListComp2List, 'renameprivparams': RenamePrivateParams,
+              'unpack2index': Unpack2Index}
 
 
 def transform(src, name):
